@@ -132,6 +132,36 @@ Theorem C10_at_most_M_chars :
 Proof. split; [exact fit_length_le|exact fit_chunks_at_most]. Qed.
 Print Assumptions C10_at_most_M_chars.
 
+(* the same with the bound as part of the conclusion about what is EMITTED: a
+   group with max width M (any body incl. nested groups, any min — even min > M —,
+   any alignment / fill) emits the encoding of at most M whole characters *)
+Theorem C10_at_most_M_chars_emitted :
+  forall acc p M body,
+    chars_ok (CGroup p body CNil) -> p_max p = Some M ->
+    exists l, Forall uchar_ok l /\ length l <= M
+              /\ run_pattern acc (bytes_of (CGroup p body CNil)) = Some (encs l).
+Proof. exact at_most_M_chars_emitted. Qed.
+Print Assumptions C10_at_most_M_chars_emitted.
+
+(* no hypothesis on the widths: in general the code pads and THEN truncates
+   (`fit_code` = trunc M (pad m ..)) at every group; equal to the law when m <= M *)
+Theorem C10_pattern_meaning_any_widths :
+  (forall acc t, chars_ok t -> run_pattern acc (bytes_of t) = Some (encs (meaning_code t)))
+  /\ (forall p l, widths_ok p -> fit_code p l = fitp p l).
+Proof. split; [exact pattern_meaning_code|exact fit_code_fitp]. Qed.
+Print Assumptions C10_pattern_meaning_any_widths.
+
+(* valid UTF-8: if every piece character and every fill is a well-formed UTF-8
+   scalar-value encoding (`utf8_scalar`: RFC 3629 ranges), the output is a
+   concatenation of such encodings — for every oracle, nesting and width pair *)
+Theorem C10_output_valid_utf8 :
+  forall acc t,
+    chars_sat (fun u => utf8_scalar u = true) t ->
+    exists l, Forall (fun u => utf8_scalar u = true) l
+              /\ run_pattern acc (bytes_of t) = Some (encs l).
+Proof. exact output_valid_utf8. Qed.
+Print Assumptions C10_output_valid_utf8.
+
 (* ---- non-vacuity / illustrations ---- *)
 Local Open Scope N_scope.
 Definition ch_a : uchar := [97].
@@ -152,14 +182,17 @@ Example C10_example_right :
   = Some [195; 169; 97; 240; 157; 132; 158; 98].
 Proof. vm_compute. reflexivity. Qed.
 
-(* {({m:.2}{l}):~<6.4} with message pieces "é" "𝄞a" and level text "ab": nested *)
+(* {({m:.2}{l}):~<6.8} with message pieces "é" "𝄞a" and level text "ab": nested *)
 Example C10_example_nested :
   let inner := CGroup {| p_min := None; p_max := Some 2%nat; p_right := false; p_fill := [32] |}
                       (cchunks [[ch_eacute]; [ch_clef; ch_a]]) (CChunk [ch_a; ch_b] CNil) in
-  let t := CGroup {| p_min := Some 6%nat; p_max := Some 4%nat; p_right := false; p_fill := [126] |} inner CNil in
-  chars_ok t /\ meaning t = [ch_eacute; ch_clef; ch_a; ch_b]
-  /\ run_pattern one_byte (bytes_of t) = Some [195; 169; 240; 157; 132; 158; 97; 98].
-Proof. split; [repeat constructor|]. split; vm_compute; reflexivity. Qed.
+  let t := CGroup {| p_min := Some 6%nat; p_max := Some 8%nat; p_right := false; p_fill := [126] |} inner CNil in
+  chars_ok t /\ all_widths_ok t /\ meaning t = [ch_eacute; ch_clef; ch_a; ch_b; [126]; [126]]
+  /\ run_pattern one_byte (bytes_of t) = Some [195; 169; 240; 157; 132; 158; 97; 98; 126; 126].
+Proof.
+  split; [repeat constructor|]. split; [cbn; repeat split; repeat constructor|].
+  split; vm_compute; reflexivity.
+Qed.
 
 (* min > max is outside the law: {m:~<5.2} on "abb" emits "ab" (no padding) *)
 Example C10_example_min_gt_max :
@@ -178,3 +211,36 @@ Example C10_example_unaligned_pieces_leak :
             (PChunk [195] (PChunk [169] PNil)) PNil)
   = Some [169].
 Proof. vm_compute. reflexivity. Qed.
+
+(* {m:𝄞<4.6} on pieces "é" "a" (m < M, left, 4-byte fill), two bytes per call *)
+Example C10_example_left :
+  let p := {| p_min := Some 4%nat; p_max := Some 6%nat; p_right := false; p_fill := ch_clef |} in
+  let css := [[ch_eacute]; [ch_a]] in
+  Forall (Forall uchar_ok) css /\ uchar_ok (p_fill p) /\ widths_ok p
+  /\ fit (Some 4%nat) (Some 6%nat) ch_clef false (concat css) = [ch_eacute; ch_a; ch_clef; ch_clef]
+  /\ run_pattern (fun _ _ => 2%nat) (bytes_of (CGroup p (cchunks css) CNil))
+     = Some [195; 169; 97; 240; 157; 132; 158; 240; 157; 132; 158].
+Proof. repeat split; try (repeat constructor; fail); vm_compute; reflexivity. Qed.
+
+(* {m:.2} on pieces "a𝄞" "éb": the cut falls between two multi-byte characters *)
+Example C10_example_max :
+  run_pattern one_byte
+    (bytes_of (CGroup {| p_min := None; p_max := Some 2%nat; p_right := false; p_fill := [32] |}
+                      (cchunks [[ch_a; ch_clef]; [ch_eacute; ch_b]]) CNil))
+  = Some [97; 240; 157; 132; 158].
+Proof. vm_compute. reflexivity. Qed.
+
+(* the hypotheses of C10_output_valid_utf8 are satisfiable with 1/2/3/4-byte and
+   combining characters; surrogates / overlongs / stray continuation bytes are not scalars *)
+Example C10_example_utf8_scalar :
+  forallb utf8_scalar [ch_a; ch_eacute; [226; 130; 172]; ch_clef; [204; 129]] = true
+  /\ forallb (fun u => negb (utf8_scalar u)) [[237; 160; 128]; [192; 128]; [169]; [244; 144; 128; 128]; []] = true.
+Proof. split; vm_compute; reflexivity. Qed.
+
+(* min > max: pad-then-truncate differs from the law on the RIGHT-aligned side:
+   {m:~>5.2} on "ab" emits "~~" (the fills use up the budget) *)
+Example C10_example_min_gt_max_right :
+  let p := {| p_min := Some 5%nat; p_max := Some 2%nat; p_right := true; p_fill := [126] |} in
+  run_pattern one_byte (bytes_of (CGroup p (cchunks [[ch_a; ch_b]]) CNil)) = Some [126; 126]
+  /\ fit_code p [ch_a; ch_b] = [[126]; [126]] /\ fitp p [ch_a; ch_b] = [[126]; [126]; [126]; ch_a; ch_b].
+Proof. repeat split; vm_compute; reflexivity. Qed.
